@@ -1,4 +1,5 @@
 import BddProofs.Reach
+import BddProofs.ErrGood
 /-! # C01 — canonical form: handle equality is exactly Boolean-function equality
 
 `Reachable s`: `s` is reached from a new manager (any storage / bucket / cache size) by any finite
@@ -45,6 +46,12 @@ theorem C01_survives_collection {s s' : St} (hr : Reachable s) {roots : List Ref
   refine ⟨.gc hr hl h, ?_⟩
   exact (collect_spec hg (fun r hr' => let ⟨_, v⟩ := hl r hr'; Live.of_valid v) hg.rs h).2.2.2.1
 
+/-- the same when the history contains operations that *failed* (a caught 'Storage is full' panic leaves
+whatever the call had already built): `ReachableF` closes `Reachable` under failing operations as well -/
+theorem C01_canonical_after_failures {s : St} (hr : ReachableF s) {r r' : Ref} {φ φ' : Fn}
+    (v : Valid s.nodes r φ) (v' : Valid s.nodes r' φ') : r = r' ↔ φ = φ' :=
+  C01_canonical_good (reachableF_good hr) v v'
+
 /-- non-vacuity: a reachable state with two distinct live handles -/
 example : Reachable s4 ∧ Valid s4.nodes Ref.one (fun _ => true) ∧ Valid s4.nodes Ref.zero (fun _ => false) :=
   ⟨.init (sb := 4) (bb := 4) (cb := 4) new4_ok, Valid.one, Valid.zero⟩
@@ -55,4 +62,5 @@ end P
 #print axioms P.C01_negation
 #print axioms P.C01_negation_denotes
 #print axioms P.C01_survives_collection
+#print axioms P.C01_canonical_after_failures
 #print axioms P.reachable_good
